@@ -69,6 +69,64 @@ example :
   rw [alpha]; decide
 
 
+/-! ## (b) bound names against global names (declared namespaces) -/
+
+/-- **C08.bound_before_global** — a name bound by an enclosing lambda is answered by the frame stack; the table of
+global names (`free`: the namespaces a query declares through `define_enum`, `resolve_id` → `get_toplevel_ns`) is not
+consulted, whatever it says about that spelling.  Only a name that no frame binds reaches it.  So a parameter may be
+spelled like a declared namespace. -/
+theorem bound_before_global {ρ σ} (alg : Alg ρ σ) (st : Stack ρ) (x : String) (s : σ) :
+    (∀ v, st.lookup x = some v → eval alg st (.var x) s = .ok (v, s)) ∧
+    (st.lookup x = none → eval alg st (.var x) s = alg.free x s) := by
+  constructor
+  · intro v h; simp [eval, h]
+  · intro h; simp [eval, h]
+
+/-- **C08.globals_unread** — changing what the table of global names says about the names in `g` (declaring a
+namespace, or not) does not change the translation — result, state, error — of a query that reads none of them as a
+free name (`readsGlobal`, decidable, on the de Bruijn form: occurrences bound by a parameter of the same spelling do
+not count).  For every algebra of handlers, every stack, every query. -/
+theorem globals_unread {ρ σ} (alg : Alg ρ σ) (free' : String → σ → Except String (ρ × σ)) (g : String → Bool)
+    (hf : ∀ x, g x = false → free' x = alg.free x) (st : Stack ρ) (q : Q) (s : σ)
+    (h : readsGlobal g (resolve st.names q) = false) :
+    eval (alg.withFree free') st q s = eval alg st q s := by
+  rw [lookup_factors, lookup_factors]
+  exact evalDB_globals alg free' g hf _ _ s h
+
+/-- **C08.alpha_global** — the two together, as the harness samples it: `q` does not read the names in `g`, `q'` is any
+α-variant of `q` — its parameters may be spelled exactly like the names in `g` — and the translator that knows the
+names in `g` as globals translates `q'` as the translator that does not know them translates `q`. -/
+theorem alpha_global {ρ σ} (alg : Alg ρ σ) (free' : String → σ → Except String (ρ × σ)) (g : String → Bool)
+    (hf : ∀ x, g x = false → free' x = alg.free x) (q q' : Q) (s : σ)
+    (h : AlphaEq [] q q') (hg : readsGlobal g (resolve [] q) = false) :
+    eval (alg.withFree free') [] q' s = eval alg [] q s := by
+  have e := (alpha q q').1 h
+  have hg' : readsGlobal g (resolve (Stack.names ([] : Stack ρ)) q') = false := by
+    simpa [Stack.names, ← e] using hg
+  rw [globals_unread alg free' g hf [] q' s hg']
+  exact (alpha_translate alg q q' s h).symm
+
+/-- non-vacuity: `Select(ds, lambda mdlns: mdlns.pt())` does not read the global `mdlns` (the parameter shadows it) and
+is an α-variant of the query with parameter `j`; `Select(ds, lambda j: j.i() == mdlns.Color.Red)` does read it. -/
+example :
+    readsAnyB ["mdlns"] (Q.call "Select" [.var "ds", .lam ["mdlns"] (.app (Q.attr (.var "mdlns") "pt") [])]) = false ∧
+    AlphaEq [] (Q.call "Select" [.var "ds", .lam ["j"] (.app (Q.attr (.var "j") "pt") [])])
+               (Q.call "Select" [.var "ds", .lam ["mdlns"] (.app (Q.attr (.var "mdlns") "pt") [])]) ∧
+    readsAnyB ["mdlns"] (Q.call "Select" [.var "ds", .lam ["j"] (.node "cmp:Eq"
+      [.app (Q.attr (.var "j") "i") [], Q.attr (Q.attr (.var "mdlns") "Color") "Red"])]) = true := by
+  refine ⟨by decide, by rw [alpha]; decide, by decide⟩
+
+/-- the hypothesis of `globals_unread` is needed: for a query that reads the name, the table decides the outcome -/
+example : ∃ (alg : Alg String Unit) (free' : String → Unit → Except String (String × Unit)),
+    (∀ x, (x == "mdlns") = false → free' x = alg.free x) ∧
+    eval (alg.withFree free') [] (.var "mdlns") () ≠ eval alg [] (.var "mdlns") () := by
+  refine ⟨⟨fun x _ => .error ("unknown " ++ x), fun c _ => .ok (c, ()), fun _ _ s => .ok s,
+           fun _ _ _ s => .ok ([], s), fun t _ s => .ok (t, s)⟩,
+          fun x s => if x == "mdlns" then .ok ("namespace", s) else .error ("unknown " ++ x), ?_, ?_⟩
+  · intro x hx; funext s; simp [hx]
+  · simp [eval, Stack.lookup, Alg.withFree]
+
+
 /-! ## (b) continued: what func_adl's simplifier does to bound names -/
 
 /-- **C08.simplify_alpha_partial** — Full statement: `simplify_chained_calls` maps α-equivalent queries to α-equivalent
